@@ -343,9 +343,12 @@ func (x *Exec) eqValue(a, b Value) string {
 		}
 		return and(eq(av.Tag, bi.Tag), eq(av.Ref, bi.Ref))
 	case SliceV:
-		if bs, ok := b.(SliceV); ok {
-			// contract-level equality of two slice values: the same window of the same array
+		if bs, ok := b.(SliceV); ok && x.pure > 0 && bs.Base != "0" && av.Base != "0" {
+			// contract-level equality of two slice values (Go itself only compares a
+			// slice with nil): the same window of the same array
 			return and(eq(av.Base, bs.Base), eq(av.Off, bs.Off), eq(av.Len, bs.Len), eq(av.Cap, bs.Cap))
+		} else if ok && av.Base == "0" {
+			return x.isNil(b)
 		}
 		return x.isNil(a)
 	case ArrayV:
